@@ -122,6 +122,7 @@ def _chunk(args):
         'strata': collections.Counter(), 'violations': [], 'all_digests': 0,
         'harness_errors': [], 'served': 0, 'internal_errors': collections.Counter(),
         'viol_counts': collections.Counter(), 'max_bound': 0.0,
+        'observations': collections.Counter(),
     }
     try:
         for i in range(lo, hi):
@@ -154,6 +155,9 @@ def _chunk(args):
                 if not spec.relevant(v):
                     out['probes']['other_property_violation:' + v['property']] += 1
                     continue
+                if stratum in getattr(spec, 'observe_only_strata', ()):
+                    out['observations'][f'{stratum}:{v["kind"]}:{v["signature"]}'] += 1
+                    break
                 out['viol_counts'][vkey(v)] += 1
                 if sum(1 for x in out['violations'] if vkey(x[4]) == vkey(v)) < max_viol:
                     out['violations'].append((i, seed, stratum, used, v))
@@ -186,6 +190,7 @@ def new_total():
         'strata': collections.Counter(), 'violations': [], 'all_digests': 0,
         'harness_errors': [], 'served': 0, 'internal_errors': collections.Counter(),
         'viol_counts': collections.Counter(), 'max_bound': 0.0,
+        'observations': collections.Counter(),
     }
 
 
@@ -346,7 +351,10 @@ def load_known(property_id):
 
 def match_known(known, violation, stratum):
     for f in known:
-        if f['kind'] != violation['kind']:
+        if 'kinds' in f:
+            if violation['kind'] not in f['kinds']:
+                continue
+        elif f['kind'] != violation['kind']:
             continue
         if f.get('strata') and stratum not in f['strata']:
             continue
@@ -354,6 +362,8 @@ def match_known(known, violation, stratum):
         if 'signature' in f and f['signature'] == sig:
             return f
         if 'signature_prefix' in f and sig.startswith(f['signature_prefix']):
+            return f
+        if 'signature_suffix' in f and sig.endswith(f['signature_suffix']):
             return f
     return None
 
@@ -639,6 +649,7 @@ def run_check(spec, tier, base_seed, *, out=print):
             'known_findings_hit': {k: v[2] for k, v in known_hit.items()},
             'fixed_findings_exemplars': fixed_stats,
             'violation_signatures': {f'{k[1]}:{k[2]}': c for k, c in total['viol_counts'].items()},
+            'observations_in_unclaimed_strata': dict(total['observations'].most_common(20)),
             'harness_errors': harness_msgs[:10],
         },
         'assumptions': spec.assumptions,
